@@ -702,7 +702,7 @@ namespace jsoncons {
             {
                 data_.emplace_back(key_type(key.begin(),key.end(), get_allocator()), 
                     std::forward<Args>(args)...);
-                auto pos = data_.begin() + data_.size();
+                auto pos = data_.begin() + (data_.size()-1);
                 return std::make_pair(pos,true);
             }
             else
@@ -727,7 +727,7 @@ namespace jsoncons {
                 {
                     data_.emplace_back(key_type(key.begin(),key.end(), get_allocator()), 
                         std::forward<Args>(args)...);
-                    auto pos = data_.begin() + data_.size();
+                    auto pos = data_.begin() + (data_.size()-1);
                     return pos;
                 }
                 else
@@ -753,7 +753,7 @@ namespace jsoncons {
                 {
                     data_.emplace_back(key_type(key.begin(),key.end(), get_allocator()), 
                         std::forward<Args>(args)...);
-                    auto pos = data_.begin() + data_.size();
+                    auto pos = data_.begin() + (data_.size()-1);
                     return pos;
                 }
                 else
